@@ -68,6 +68,9 @@ def model_values(model, exprs):
         try:
             if isinstance(e, (list, tuple)):
                 out[name] = [_val(model.eval(x, model_completion=True)) for x in e]
+            elif isinstance(e, z3.ExprRef) and z3.is_seq(e):
+                ln = model.eval(z3.Length(e), model_completion=True).as_long()
+                out[name] = [_val(model.eval(e[k], model_completion=True)) for k in range(min(ln, 8))]
             elif isinstance(e, z3.ExprRef):
                 out[name] = _val(model.eval(e, model_completion=True))
             else:
